@@ -22,11 +22,14 @@ import os
 import re
 import shutil
 
+import multiprocessing
+
 import vlib
+import c13_fault
 
 META = {
     "category": "proof",
-    "technique": "Coq model + theorems; differential runs against the extracted model; strace-recorded system calls replayed into crash images",
+    "technique": "Coq model + theorems; differential runs against the extracted model; strace-recorded system calls replayed into crash images; EIO injected at every system call of Manifest::open (direct judgment)",
     "text": "Coq theorems (Mani/Props_C13.v, closed under the global context) over an executable model of mani/src/lib.rs (Edit, writer, BufRead::lines, ManifestIterator::next, read_mani, open/_apply/rollover/verify) on a small file-system model with hard links and durable prefixes: a transition system of open/apply/rollover/close with a crash at ANY prefix of the mutating system calls of any operation (process death or power loss with arbitrary torn tails), any number of times; proved for all histories: reopening yields the acknowledged state or that plus the one whole edit in flight, or fails with corruption (never a panic, an I/O error, a lost acknowledged edit or a partial edit); crash-free reopen = fold of all edits; process-death crashes always reopen; the fragments chain and Manifest::verify reports nothing on any open manifest, also after crashes; parse(serialise) and iterator round trips; every truncation of a fragment reads as a prefix (>= the complete edits) or fails — no assumption on the checksum; the Edit API accepts exactly what the reader takes back (so the class 'strings containing every non-newline byte' of the property's quantifier is, since fix 23237de, REJECTED AT THE API — empty, non-ASCII and CR-terminated strings and the keys + - get `string-disallowed` — rather than stored: the theorems are over wf_str, and every run checks the rejection on the real code); a cut of MANIFEST in a directory with a history reopens to a prefix of the applied edits; the lock file is exclusive across processes; all u64 rollover ratios (saturating product).  Tied to the code on every run by differential runs (real Manifest vs extracted model vs independent Python oracle) incl. strace-recorded call sequences, crash images materialised from the recorded calls (re-opened twice), and real SIGKILL injections.",
     "note": "Trusted: Coq kernel; extraction (ExtrOcamlBasic) + ocaml/mani driver (supplies crc32c); harness c13; strace; the OS semantics of Mani/Fs.v (completed calls atomic and ordered, link/rename/unlink/create durable on return, data durable up to the last fdatasync); single writer = theorem over the lock-file model Mani/Lock.v (fcntl record locks: one owning process, released when the process closes any descriptor of the file), exercised on two real processes; I/O faults and foreign file names in the directory are outside the model; unreadable strings (empty, non-ASCII, CR-terminated, keys + -) are rejected at the Edit API, not stored.",
 }
@@ -1266,6 +1269,19 @@ def run(chk):
     sigkill_validation(chk, crash_cases, hxbin, r3, 6 if quick else 120, cstats, corr_bad)
     evaluations += cstats.get("sigkill_runs", 0)
     lap("crash")
+    # ---------------------------------------------------------------- (4) I/O errors at open (checks/c13_fault.py)
+    r4 = rng.fork()
+    of_cases = []
+    for k in range(16 if quick else 200):
+        ops = [o.strip() for o in gen_history(r4, stats, with_cut=False, max_ops=r4.range(2, 9)).split(";")]
+        of_cases.append("; ".join(ops[:-6] + ["close"]))
+    with multiprocessing.Pool(max(2, vlib.NCPU - 2)) as pool:
+        of_cov, of_bad = c13_fault.run_stage(chk, of_cases, hxbin, lambda f, a: pool.map(f, a, chunksize=1))
+    for b in of_bad:
+        prop_bad.append({"kind": "open-fault", "tag": b["tag"], "case": b["case"], "what": b["problems"][0]["what"] + " - " + b["problems"][0]["fault"],
+                         "problems": b["problems"]})
+    evaluations += of_cov["faulted_opens"]
+    lap("open-fault")
     # ---------------------------------------------------------------- evidence
     samples = [hist_cases[len([1 for c, t in hist_cases if t.startswith("corpus")])][0][:600]]
     if fmt_ops:
@@ -1274,9 +1290,9 @@ def run(chk):
         samples.append({"crash_history": crash_cases[-1][0][:400]})
     chk.coverage.update({
         "evaluations": evaluations, "distinct_nontrivial": len(distinct),
-        "rule": "one SplitMix64 seed; (1) histories of open/apply/rollover/close/cut/verify/dump with ratios {0,1,2,3,5,10,1000,2^32,2^63,2^64-1}, strings from a boundary pool (1..300 bytes, CR inside, '+'/'-' first, the separator itself, control bytes) plus strings the reader cannot take back (empty, non-ASCII of 2/3/4 bytes, trailing CR, newline, keys + - \\n non-ASCII), non-trivial = at least 2 applies; (2) files: valid serialisations, truncations (all lengths for small files / thorough tier, otherwise line boundaries +-2 and random), 12 kinds of malformed mutants incl. invalid UTF-8, '+' and upper-case checksums, CRLF, well-checksummed unwritable lines; non-trivial = more than 16 bytes; (3) crash: histories under strace, images = prefix of recorded calls x cut of MANIFEST's unsynced tail; distinct = distinct case strings / (history, op, calls, cut)",
+        "rule": "one SplitMix64 seed; (1) histories of open/apply/rollover/close/cut/verify/dump with ratios {0,1,2,3,5,10,1000,2^32,2^63,2^64-1}, strings from a boundary pool (1..300 bytes, CR inside, '+'/'-' first, the separator itself, control bytes) plus strings the reader cannot take back (empty, non-ASCII of 2/3/4 bytes, trailing CR, newline, keys + - \\n non-ASCII), non-trivial = at least 2 applies; (2) files: valid serialisations, truncations (all lengths for small files / thorough tier, otherwise line boundaries +-2 and random), 12 kinds of malformed mutants incl. invalid UTF-8, '+' and upper-case checksums, CRLF, well-checksummed unwritable lines; non-trivial = more than 16 bytes; (3) crash: histories under strace, images = prefix of recorded calls x cut of MANIFEST's unsynced tail; distinct = distinct case strings / (history, op, calls, cut); (4) open-fault: histories closed cleanly, then Manifest::open re-run on a copy with EIO injected (strace) at each system call of the open that touches the directory, followed by an undisturbed reopen",
         "samples": samples,
-        "input_distribution": {"histories": stats, "format": fstats, "crash": cstats, "lock": lstats},
+        "input_distribution": {"histories": stats, "format": fstats, "crash": cstats, "lock": lstats, "open_fault": of_cov},
         "corpus_cases": len(corpus),
         "correspondence": "impl (Rust, release + overflow-checks + debug-assertions) vs extracted Coq model vs independent Python oracle (fold of edits, prefix states, chain reader, PyFs replay)",
         "disagreements_impl_vs_model": len(corr_bad), "disagreements_impl_vs_spec": len(prop_bad),
@@ -1291,7 +1307,7 @@ def run(chk):
         ],
     })
     chk.assumptions = [
-        "file-system semantics as in Mani/Fs.v (see trusted_base); I/O faults (EIO, ENOSPC) are not modelled",
+        "file-system semantics as in Mani/Fs.v (see trusted_base); I/O faults (EIO, ENOSPC) are not modelled - stage (4) judges Manifest::open under an injected EIO at every one of its system calls directly against the property (fails, or yields exactly the state; never panics; the next undisturbed reopen yields exactly the state), with no theorem behind the read-side faults",
         "one writer at a time is the theorem C13_lock_exclusive over Mani/Lock.v; its kernel side is the POSIX rule 'closing any descriptor of a file releases the process\'s record locks on it' and 'a record lock has one owning process'; the lock file itself is not deleted or replaced under a live handle",
         "no foreign files named MANIFEST.<x> in the directory",
         "strings that are empty, non-ASCII, end in CR or contain a newline, and info keys + - newline non-ASCII are not COVERED by the theorems but REJECTED by Edit::add/rm/info (theorem C13_edit_api_exact: accepted <-> wf_str / wf_key); the generators submit such strings on every run and the check compares the rejection and the unchanged state with the model and the oracle",
@@ -1345,6 +1361,10 @@ def replay(path):
     shutil.rmtree(work, ignore_errors=True)
     os.makedirs(work)
     case = b["case"]
+    if b.get("kind") == "open-fault":
+        r = c13_fault.run_case((hxbin, work, "replay", case))
+        print("problems now:", json.dumps(r["problems"][:8], indent=1)[:4000])
+        return 1 if r["problems"] else 0
     if b.get("kind") == "crash-image":
         # run the history under strace again, rebuild the image, re-open it
         root = os.path.join(work, "h")
